@@ -448,6 +448,9 @@ func runHistory(c *vf.Ctx, caseNo int, dir string) (h histOut) {
 	// widens the window in which a newly elected leader does not yet know that
 	// acknowledged writes are committed.
 	commitTimeout := []time.Duration{0, 200 * time.Millisecond, 600 * time.Millisecond}[r.IntN(3)]
+	if caseNo%4 == 0 {
+		commitTimeout = 600 * time.Millisecond
+	}
 	opt := func(id string) hcluster.Options {
 		return hcluster.Options{ID: id, HeartbeatTimeout: 400 * time.Millisecond, ElectionTimeout: 400 * time.Millisecond, LeaderLease: 300 * time.Millisecond, NoSnapshotOnClose: true,
 			Tune: func(st *store.Store) { st.CommitTimeout = commitTimeout }}
@@ -551,7 +554,35 @@ func runHistory(c *vf.Ctx, caseNo int, dir string) (h histOut) {
 		f()
 	}
 	deadline := time.Now().Add(time.Duration(durMs) * time.Millisecond)
-	for time.Now().Before(deadline) {
+	// Every fourth history uses a directed schedule instead of the random one:
+	// repeatedly let writes flow under slow links (followers learn the commit
+	// index late), make the leader vanish, and let the clients hammer the newly
+	// elected leader with reads during its first, slow round trips.
+	directed := caseNo%4 == 0
+	for directed && time.Now().Before(deadline) {
+		names := cl.Names()
+		d := time.Duration(100+r.IntN(150)) * time.Millisecond
+		fault(fmt.Sprintf("lag-all:%s", d), func() {
+			for _, a := range names {
+				for _, b := range names {
+					if a != b {
+						cl.Net.SetDelay(a, b, d)
+					}
+				}
+			}
+		})
+		time.Sleep(time.Duration(500+r.IntN(500)) * time.Millisecond)
+		noteLeader()
+		if ld := cl.Leader(); ld != nil {
+			fault("isolate-leader:"+ld.Name, func() { cl.Net.Isolate(ld.Name, names) })
+		}
+		time.Sleep(time.Duration(1800+r.IntN(900)) * time.Millisecond)
+		noteLeader()
+		fault("heal", func() { cl.Net.HealAll() })
+		time.Sleep(time.Duration(800+r.IntN(600)) * time.Millisecond)
+		noteLeader()
+	}
+	for !directed && time.Now().Before(deadline) {
 		time.Sleep(time.Duration(400+r.IntN(900)) * time.Millisecond)
 		noteLeader()
 		names := cl.Names()
